@@ -63,7 +63,8 @@ class RA:
 
 
 class RB:
-    pass
+    def __bool__(self) -> bool:  # resources of this type are falsy objects
+        return False
 
 
 class RC:
@@ -150,6 +151,9 @@ def build_source(sig: dict[str, Any]) -> str:
 class Produced:
     def __init__(self, key: Any, n: int) -> None:
         self.key, self.n = key, n
+
+    def __bool__(self) -> bool:
+        return self.key[0] != "RC"
 
 
 async def scenario(case: dict[str, Any], out: dict[str, Any]) -> None:
